@@ -317,6 +317,8 @@ def run_prov(prog):
     if g is None:
         obs.append(bad(RULE, "print_code_location", "", "function not found"))
     else:
+        S = g.param(name="start", ty="CodeLocation", nth=0) or 2
+        E = g.param(name="end", ty="CodeLocation", nth=1) or 3
         groups = []
         for b, t in g.calls():
             if (t.get("fn") or "").endswith("Arguments::<'a>::new") or (t.get("fn") or "").startswith("core::fmt::Arguments"):
@@ -342,17 +344,17 @@ def run_prov(prog):
             if None in items:
                 probs.append("an argument is not a line/column of start or end")
             else:
-                if items[0] != (2, "line"):
+                if items[0] != (S, "line"):
                     probs.append("the first number printed is not start.line")
                 if multi:
-                    if items != [(2, "line"), (2, "column"), (3, "line"), (3, "column")]:
+                    if items != [(S, "line"), (S, "column"), (E, "line"), (E, "column")]:
                         probs.append("a range over several lines must print start.line:start.column-end.line:end.column, found %s"
-                                     % ["%s.%s" % ({2: "start", 3: "end"}.get(p, "?"), fl) for p, fl in items])
+                                     % ["%s.%s" % ({S: "start", E: "end"}.get(p, "?"), fl) for p, fl in items])
                 else:
-                    if items[-1] != (3, "column"):
+                    if items[-1] != (E, "column"):
                         probs.append("the last number printed is not end.column")
             obs.append(bad(RULE, key, site(g, line), "; ".join(probs)) if probs else
-                       ok(RULE, key, site(g, line), "prints %s" % " ".join("%s.%s" % ({2: "start", 3: "end"}[p], fl) for p, fl in items)))
+                       ok(RULE, key, site(g, line), "prints %s" % " ".join("%s.%s" % ({S: "start", E: "end"}.get(p, "?"), fl) for p, fl in items)))
         if not any(m for _b, _l, _i, m in groups):
             obs.append(bad(RULE, "print_code_location:multi-line", site(g), "no output for ranges whose start and end are on different lines"))
     # (3) call sites of print_code_location take [0] as start and [1] as end
@@ -364,7 +366,10 @@ def run_prov(prog):
             k += 1
             n += 1
             key = "start-end:%s#%d" % (short_path(f.path), k)
-            a1, a2 = strip(f.desc_op(t["args"][1])), strip(f.desc_op(t["args"][2]))
+            pcl = prog.fn("jrsonnet_evaluator::trace::print_code_location")
+            si = (pcl.param(name="start", ty="CodeLocation", nth=0) or 2) - 1 if pcl else 1
+            ei = (pcl.param(name="end", ty="CodeLocation", nth=1) or 3) - 1 if pcl else 2
+            a1, a2 = strip(f.desc_op(t["args"][si])), strip(f.desc_op(t["args"][ei]))
             while a1[0] in ("ref", "deref"):
                 a1 = a1[1]
             while a2[0] in ("ref", "deref"):
